@@ -120,6 +120,7 @@ fn all_opts() -> Opts {
     o.join_pct = 5;
     o.multiline_tag_pct = 10;
     o.close_attr_pct = 8;
+    o.bom_pct = 5;
     o
 }
 
